@@ -157,6 +157,13 @@ fn exec_case(p: &mut proxy::Proxy, spec: &CaseSpec) -> CaseOut {
     let d18 = sp.objs.iter().any(|o| o.toi.is_some() && o.cenc != "null" && matches!(o.src.as_str(), "stream" | "sparse" | "file"));
     for r in runs {
         let r = if r == "full" && d18 { "probe".to_string() } else { r };
+        // objects of tens of megabytes (the default-configuration replays of findings e2e-1): the session model's
+        // symbol lists are quadratic there - the stream digest is compared, the receptions are judged by the oracle
+        let huge = sp.objs.iter().any(|o| o.sz > 2_000_000 && o.src != "sparse");
+        let r = if huge && r.starts_with("mask ") { r.replacen("mask", "mprobe", 1) } else { r };
+        // blocks of thousands of symbols (the K-maximum controls): same reason
+        let bigk = sp.objs.iter().any(|o| o.oti.map(|x| x.b > 2000).unwrap_or(false) && o.sz > 8000);
+        let r = if bigk && r == "full" { "probe".to_string() } else { r };
         let mut op = format!("e2e {}", r);
         let (mut obs, fails) = p.exec(&op);
         if obs == "TIMEOUT" && r.starts_with("jprobe") {
